@@ -108,6 +108,49 @@ def native_vectors(ctx):
                               {'cmd': '%s %s %s' % (op, m.hex() or '-', d.hex()), 'expected': want, 'got': o, 'profile': profile})
 
 
+def native_end_to_end(ctx):
+    """hash_to_curve / encode_to_curve of the native build = the native map2_to_curve / map_to_curve applied to field elements computed HERE
+    (hashlib transcription of RFC 9380 5.2 / 5.3): ties the hashing front end of the real SHA-256 / SHA-512 / SHAKE128 suites to the map
+    layer for boundary messages and tags (empty, block-aligned, 255-byte tag).  Supplementary oracle and replay target."""
+    from . import c13
+    chk = ctx.chk
+    q = ref.Q
+    suites = [('g1_h2c_sha256', 'sha256', c13.rfc_xmd, 'G1', 2), ('g1_e2c_sha256', 'sha256', c13.rfc_xmd, 'G1', 1), ('g2_h2c_sha256', 'sha256', c13.rfc_xmd, 'G2', 2),
+              ('g2_e2c_sha256', 'sha256', c13.rfc_xmd, 'G2', 1), ('g1_h2c_sha512', 'sha512', c13.rfc_xmd, 'G1', 2), ('g1_h2c_shake128', 'shake_128', c13.rfc_xof, 'G1', 2),
+              ('g2_h2c_shake128', 'shake_128', c13.rfc_xof, 'G2', 2)]
+    shapes = [(0, 0), (1, 43), (64, 255), (65, 1)] if ctx.tier == 'quick' else [(0, 0), (0, 255), (1, 43), (55, 16), (64, 255), (65, 1), (128, 254), (200, 255)]
+    cases = []
+    for op, hname, f, g, cnt in suites:
+        for ml, dl in shapes:
+            m, d = c13._bytes('m%d' % ml, ml), c13._bytes('d%d' % dl, dl)
+            m_ = 1 if g == 'G1' else 2
+            okm = f(hname, m, d, cnt * m_ * 64)
+            es = [int.from_bytes(okm[i * 64:(i + 1) * 64], 'big') % q for i in range(cnt * m_)]
+            if g == 'G1':
+                mapcmd = ('g1_map2 %x %x' % (es[0], es[1])) if cnt == 2 else ('g1_map %x' % es[0])
+            else:
+                mapcmd = ('g2_map2 %x %x %x %x' % tuple(es)) if cnt == 2 else ('g2_map %x %x' % tuple(es))
+            cases.append((op, ml, dl, '%s %s %s' % (op, m.hex() or '-', d.hex() or '-'), mapcmd))
+    n = load.Native('release')
+    try:
+        outs = n.run([c[3] for c in cases] + [c[4] for c in cases])
+    finally:
+        n.close()
+    k = len(cases)
+    nbad = 0
+    seen = set()
+    for (op, ml, dl, hcmd, mcmd), oh, om in zip(cases, outs[:k], outs[k:]):
+        pt = om.split(' insub=')[0].strip()
+        if oh.strip() != pt:
+            nbad += 1
+            key = 'h2c-native:%s:%s' % (op, 'dst255' if dl == 255 else 'bytes')
+            if key not in seen:
+                seen.add(key)
+                ctx.violation(key, '%s(|msg|=%d, |dst|=%d) differs from map(hash_to_field per RFC 9380 5.2/5.3 computed with hashlib): got %s, want %s' % (op, ml, dl, oh[:40], pt[:40]),
+                              {'cmd': hcmd, 'expected_via': mcmd, 'got': oh.strip(), 'expected': pt, 'profile': 'release'})
+    chk.extra['native_end_to_end'] = {'cases': k, 'disagreements': nbad, 'role': 'supplementary oracle / replay target'}
+
+
 def run(ctx):
     chk = ctx.chk
     ctx.explanation = ('EUF symbolic execution of the HashToCurve blanket impl from MIR (composition decided by z3); RFC 9380 known-answer vectors replayed '
@@ -118,6 +161,15 @@ def run(ctx):
         o.handled = True
         ctx.violation('h2c-composition:' + o.name.split(' = ')[0], 'hash_to_curve composition obligation fails: ' + o.name, {'obligation': o.name, 'model': o.model})
     native_vectors(ctx)
+    # the hashing front end, decided here as well (same machinery as C13): the generic expanders and hash_to_field with the hash uninterpreted
+    from . import c13, c13_euf
+    try:
+        c13_euf.run_part(ctx)
+        chk.discharge()
+        c13.confirm_euf_failures(ctx)
+    except Inconclusive as e_:
+        ctx.inconclusive('encoder (expanders): %s' % e_)
+    native_end_to_end(ctx)
     chk.assumptions += ['hash_to_field = RFC 9380 5.2 (C13), map_to_curve / map2_to_curve = RFC composition (C14) of SSWU (C15), isogeny (C16), h_eff clearing (C17)',
                         'the four RFC vectors are known-answer tests, not a solver result: they pin constants / sign conventions end to end']
     chk.trusted += ['rustc MIR printer', 'mirsym', 'z3', 'native replay binary (sha2 0.8, sha3 0.8 from the cargo cache)']
